@@ -66,10 +66,12 @@ const EDIT_KINDS: &[&str] = &[
     "rename_file",
     "broken_file",
     "huge_comment",
+    "doc_comments",
+    "rust_noise",
 ];
 
 fn is_noise(kind: &str) -> bool {
-    matches!(kind, "comments" | "decoy_items" | "non_rs_file" | "target_decoy" | "git_decoy" | "broken_file" | "huge_comment")
+    matches!(kind, "comments" | "decoy_items" | "non_rs_file" | "target_decoy" | "git_decoy" | "broken_file" | "huge_comment" | "doc_comments" | "rust_noise")
 }
 
 const DECOY_RS: &str = "use serde::{Deserialize, Serialize};\n\n#[derive(Serialize, Deserialize)]\npub struct BuildArtifactType {\n    pub leaked: String,\n}\n\n#[tauri::command]\npub fn build_artifact_command(x: BuildArtifactType) -> BuildArtifactType {\n    x\n}\n";
@@ -101,6 +103,47 @@ fn apply_edit(r: &mut Rng, kind: &str, m: &Model, extras: &BTreeMap<String, Stri
                 text.push_str(&format!("// {:04} lorem ipsum dolor sit amet consectetur adipiscing elit sed do\n", k));
             }
             m2.files[fi].items.insert(pos, Item::Raw(text));
+        }
+        "doc_comments" => {
+            // documentation comments in front of commands, types and inside nothing else: `///`,
+            // `/** */`
+            for _ in 0..r.range(1, 4) {
+                let fi = r.below(m2.files.len() as u64) as usize;
+                let real: Vec<usize> = m2.files[fi].items.iter().enumerate().filter(|(_, it)| !matches!(it, Item::Raw(_))).map(|(k, _)| k).collect();
+                if real.is_empty() {
+                    continue;
+                }
+                let pos = *r.pick(&real);
+                let w1 = *r.pick(crate::model::WORDS);
+                let text = match r.below(3) {
+                    0 => format!("/// Handles the {} part.\n///\n/// # Errors\n/// never\n", w1),
+                    1 => format!("/** {} documentation\n * second line\n */\n", w1),
+                    _ => format!("/// `{}`: see <https://example.invalid/{}>\n", w1, w1),
+                };
+                m2.files[fi].items.insert(pos, Item::Raw(text));
+            }
+        }
+        "rust_noise" => {
+            // items that are neither commands nor serde types, of every kind the language has
+            for _ in 0..r.range(1, 4) {
+                let fi = r.below(m2.files.len() as u64) as usize;
+                let pos = r.below(m2.files[fi].items.len() as u64 + 1) as usize;
+                let n = r.range(1, 99_999);
+                let text = match r.below(11) {
+                    0 => format!("mod helpers_{n} {{\n    pub fn inner(x: u8) -> u8 {{\n        x\n    }}\n\n    pub struct Local {{\n        pub a: i32,\n    }}\n}}\n", n = n),
+                    1 => format!("#[cfg(test)]\nmod tests_{n} {{\n    #[test]\n    fn works() {{\n        assert_eq!(1, 1);\n    }}\n}}\n", n = n),
+                    2 => format!("macro_rules! noop_{n} {{\n    () => {{}};\n    ($x:expr) => {{\n        $x\n    }};\n}}\n", n = n),
+                    3 => format!("pub trait Describe{n} {{\n    fn describe(&self) -> String;\n\n    fn twice(&self) -> String {{\n        format!(\"{{}}{{}}\", self.describe(), self.describe())\n    }}\n}}\n", n = n),
+                    4 => format!("#[allow(dead_code)]\ntype Bytes{n} = Vec<u8>;\n", n = n),
+                    5 => format!("#[allow(unused_imports)]\nuse std::collections::BTreeMap as Map{n};\n", n = n),
+                    6 => format!("#[allow(dead_code)]\nfn outer_{n}() {{\n    struct Inner {{\n        a: i32,\n    }}\n    fn nested() {{}}\n    let v = Inner {{ a: 1 }};\n    let _ = v.a;\n    nested();\n}}\n", n = n),
+                    7 => format!("#[allow(dead_code)]\npub fn r#match_{n}(r#type: u8) -> u8 {{\n    r#type\n}}\n", n = n),
+                    8 => format!("#[allow(dead_code)]\npub(crate) async fn background_{n}() -> Result<(), String> {{\n    Ok(())\n}}\n", n = n),
+                    9 => format!("#[allow(dead_code)]\npub union Bits{n} {{\n    pub i: u32,\n    pub f: f32,\n}}\n", n = n),
+                    _ => format!("#[allow(dead_code)]\npub struct Wrapper{n}(pub i32);\n\nimpl std::fmt::Display for Wrapper{n} {{\n    fn fmt(&self, f: &mut std::fmt::Formatter<'_>) -> std::fmt::Result {{\n        write!(f, \"{{}}\", self.0)\n    }}\n}}\n", n = n),
+                };
+                m2.files[fi].items.insert(pos, Item::Raw(text));
+            }
         }
         "decoy_items" => {
             for _ in 0..r.range(1, 3) {
@@ -358,7 +401,7 @@ impl Check for C13 {
     fn cases(&self, tier: Tier) -> u64 {
         match tier {
             Tier::Quick => 650,
-            Tier::Thorough => 6000,
+            Tier::Thorough => 12000,
         }
     }
     fn gen(&self, seed: u64, i: u64, tier: Tier) -> Value {
@@ -383,6 +426,13 @@ impl Check for C13 {
         let mut flags = vec![];
         let edit_case = i % 2 == 1;
         add_specials(&mut mr, &mut model, &mut flags, !edit_case);
+        // many source files (17..70) in an eighth of the worlds
+        if (i / 13) % 8 == 3 {
+            let mut wr = r.split("widen");
+            let target = *wr.pick(&[17usize, 18, 33, 64, 65, 70]);
+            crate::model::widen(&mut model, &mut wr, target);
+            flags.push(format!("files={}", target));
+        }
         // several mappings for instantiations of one generic, none of them the one the sources
         // use: `Id<A>` and `Id<B>` are mapped, a field has type `Id<C>` (the model is complete
         // BEFORE any edit is derived from it)
@@ -730,7 +780,7 @@ impl Check for C13 {
     }
 
     fn rule(&self) -> String {
-        "sched cases: one generated multi-file project (2..6 files) generated by S forced simulated processes (S=6 quick, 12 thorough) that differ in hash keys, readdir permutation, clock script, verbosity and (in a third of the worlds) visualisation on/off; every file compared byte-for-byte modulo the timestamp line. edit cases: one semantics-preserving transformation (11 kinds) then forced runs under the same and under other hash keys; noise edits compared exactly, layout edits as multisets of declarations. distinct_nontrivial counts distinct (files with commands, #types, mode, entry, special flags) classes with >=2 command files plus distinct (edit kind, mode, entry).".into()
+        "sched cases: one generated multi-file project (2..6 files) generated by S forced simulated processes (S=6 quick, 12 thorough) that differ in hash keys, readdir permutation, clock script, write chunking, injected short reads / EINTR (a ninth of the cases), verbosity and (in a third of the worlds) visualisation on/off; every file compared byte-for-byte modulo the timestamp line. edit cases: one semantics-preserving transformation (14 kinds, incl. documentation comments and every kind of non-command/non-serde item: inline and test modules, macros, traits, aliases, imports, nested items, raw identifiers, unions, impls) then forced runs under the same and under other hash keys; noise edits compared exactly, layout edits as multisets of declarations. distinct_nontrivial counts distinct (files with commands, #types, mode, entry, special flags) classes with >=2 command files plus distinct (edit kind, mode, entry).".into()
     }
     fn assumptions(&self) -> Vec<String> {
         vec![
